@@ -1536,7 +1536,10 @@ func AggrFunExpr(query *Query, current Map, expr sqlparser.AggrFunc, opts ...Exp
 		}
 		return result, nil
 	}
-	rs, ok := query.singletonExecutions[name]
+	// memoised per aggregate expression, not per function name: SUM(a) and
+	// SUM(b) in one query are different computations
+	memoKey := sqlparser.String(expr)
+	rs, ok := query.singletonExecutions[memoKey]
 	if !ok {
 		rows := query.from
 		if all, ok := current["*"].([]any); ok {
@@ -1550,7 +1553,7 @@ func AggrFunExpr(query *Query, current Map, expr sqlparser.AggrFunc, opts ...Exp
 		if err != nil {
 			return nil, err
 		}
-		query.singletonExecutions[name] = result
+		query.singletonExecutions[memoKey] = result
 		return result, nil
 	}
 	return rs, nil
